@@ -97,6 +97,23 @@ self.fmmu_used = havoc_others(self.fmmu_used, own)
 )
 
 
+def map_fmmu_interleaved():
+    """the same function with the other mappings of the terminal running at
+    every await (the bus writes): what this mapping stores into the table"""
+    return Contract(
+        Terminal.map_fmmu, name="Terminal.map_fmmu<other mappings run at every await>",
+        params=dict(self=TERMINAL, logical=T.Range(0, 2**32 - 1), write=T.Bool),
+        requires={"typed": "table_typed(self)"},
+        raises=[Raises(ValueError), Raises(EtherCatError)],
+        cm=dict(enter={"slot_marked": "self.fmmu_used[result] == logical",
+                       "index_in_table": "0 <= result and result < len(self.fmmu_used)"},
+                exit={"own_slot_freed": "self.fmmu_used[result] is None"},
+                exit_modes=("normal", "exception", "cancelled")),
+        modifies=None,
+        options={"inline": {"ebpfcat.ethercat:Terminal.write"}, "rely": lambda ex, frame, node: _rely(ex),
+                 "on_setitem": lambda ex, v, idx, value: _on_store(ex, v, idx, value)})
+
+
 def havoc_others(lst, own):
     """rely step (native: identity).  Symbolically: a list of the same length
     whose entry `own` is unchanged and whose other entries are arbitrary
@@ -119,3 +136,37 @@ def _m_havoc_others(ex, args, kw):
     ex.assume(z3.ForAll([k], z3.Implies(z3.And(k >= 0, k < new.length),
                                         z3.Select(new.arrays["v"], k) >= -1)))
     return new
+
+
+# ----- interference at every await (the bus writes): other mappings of the same
+# terminal may take free slots and release their own while this one is suspended
+def _rely(ex):
+    term = ex.inputs["self"]
+    lst = term.fields["fmmu_used"]
+    new = _fresh(ex, T.List(T.Opt(T.Int)), "fmmu_used@await")
+    ex.assume(new.length == lst.length)
+    mine = ex.ghost.get("c20_mine")
+    if mine is not None:
+        o = lift_int(mine)
+        ex.assume(z3.Select(new.arrays["v"], o) == z3.Select(lst.arrays["v"], o))
+    k = z3.Int(ex.fresh_name("k!rely"))
+    ex.assume(z3.ForAll([k], z3.Implies(z3.And(k >= 0, k < new.length), z3.Select(new.arrays["v"], k) >= -1)))
+    term.fields["fmmu_used"] = new
+
+
+def _on_store(ex, container, idx, value):
+    term = ex.inputs.get("self")
+    if term is None or container is not term.fields.get("fmmu_used"):
+        return
+    if value is None:
+        mine = ex.ghost.pop("c20_mine", None)
+        ex.check(f"{ex.target_short}.guarantee[only its own slot is released]",
+                 z3.BoolVal(False) if mine is None else lift_int(idx) == lift_int(mine),
+                 "the entry set to None is the one this mapping marked")
+        return
+    # guarantee towards the other mappings: a slot is marked only while it is free
+    cur = z3.Select(container.arrays["v"], lift_int(idx))
+    ex.check(f"{ex.target_short}.guarantee[a slot is taken only while it is free]", cur == -1,
+             "fmmu_used[index] is None at the moment it is set: no await lies between finding the free slot and "
+             "marking it (another mapping of the terminal could take it meanwhile)")
+    ex.ghost["c20_mine"] = idx
